@@ -354,6 +354,13 @@ func VerifC06_FinalizingBatchReleaseWaitsUntilCompleted() {
 	}
 }
 
+// C05: the ResumeWorkload task is what hands the workload back on every exit — success, rollback, disable, delete: as
+// long as the BatchRelease still holds a batchPartition the request to finalise is written, whatever finalizing policy
+// it happens to carry (obligations asksWithOnePatch / requestRemovesThePartitionAndSetsThePolicy of the C06 relation).
+func VerifC05_ResumeWorkloadAsksTheBatchReleaseToFinalise() {
+	VerifC06_FinalizingBatchReleaseWaitsUntilCompleted()
+}
+
 // VerifC05_InProgressMarkerRemovedByTheEndOfEveryCleanup: whichever exit is taken and wherever its clean-up is picked
 // up (the persisted cursor empty, or left at any task by an earlier reconcile or by a reset that was under way), by the
 // time the clean-up reports done the workload's in-rollout-progressing marker has been removed — as long as it is
